@@ -1065,10 +1065,26 @@ def search(ctx, budget_s):
     ctx.notes.append("search: %d further scripted cases and %d seeds through the oracle, no unlisted violation" % (n, m))
 
 
+def gen_overwritten():
+    """True when coq/Gen/Sim.v is not what the translator derives from this run's source"""
+    import os
+    from dv import gen_sim
+    try:
+        want = gen_sim.generate(core.REPO)
+    except Exception:
+        return False          # fail-closed stub: handled by proof_stage
+    try:
+        with open(os.path.join(core.COQ, "Gen", "Sim.v")) as f:
+            return f.read() != want
+    except OSError:
+        return True
+
+
 def run(tier, seed, replay=None):
     ctx = core.Ctx("C18", tier, seed)
     ctx.assumptions = [
-        "model coq/Model/C18Model.v is a hand transcription of the simulators; tied by this correspondence run (scripted draws, exact rational lengths, generator call trace)",
+        "model coq/Model/C18Model.v is a hand transcription of the simulators; tied by this correspondence run (scripted draws, exact rational lengths, generator call trace) and, for the functions listed in Props/C18Gen.v, by the translator tie (coq/Gen/Sim.v is generated from the current source by py/dv/gen_sim.py, fail closed, and proved equal to the model)",
+        "translator tie: the meaning of the Python primitives (rng methods as typed draws, lists, value nodes of the gene tree, loops, None) is coq/Model/C18Prims.v; loop fuel is the model's",
         "exact arithmetic: draws are dyadic so binary64 is exact on the compared runs; rounding of tip heights with real draws is outside the model (real seeds are checked to 1e-9 relative by the oracle only)",
         "birth_death_tree: tip-count stopping rule, no GSA, extinct tips pruned, taxa assigned (the defaults); max_time / num_extinct_tips / num_total_tips / gsa_ntax / is_retain_extinct_tips / tree= not modelled",
         "draws on which binary64 rounding of the normalised event weights decides a comparison that is an exact tie in rational arithmetic are detected and not compared",
@@ -1091,8 +1107,22 @@ def run(tier, seed, replay=None):
         else:
             print(json.dumps(r, indent=1)[:3000])
         return 0
-    ok = core.proof_stage(ctx, ["Props/C18.vo"])
-    if not ok:
+    ok = core.proof_stage(ctx, ["Props/C18.vo"], gen_needed=("__none__",))
+    # translator tie: Gen/Sim.v (regenerated from the current probability.py / coalescent.py /
+    # birthdeath.py by py/dv/gen_sim.py) = the hand-written model
+    ok_gen = False
+    for _attempt in range(3):
+        n_obl = len(ctx.obligations)
+        ok_gen = core.proof_stage(ctx, ["Props/C18Gen.vo"], props_file="Props/C18Gen.v", gen_needed=("Sim",))
+        if not gen_overwritten():
+            break
+        # another check running concurrently regenerated coq/Gen from its own DV_REPO: build again
+        ctx.notes.append("coq/Gen/Sim.v was overwritten by a concurrent run during the build; translator tie repeated")
+        ctx.obligations = ctx.obligations[:n_obl]
+    else:
+        ctx.obligation("coq/Gen/Sim.v stable during the build (no concurrent regeneration)", False)
+        ok_gen = False
+    if not (ok and ok_gen):
         core.broken_proof(ctx, search)
 
     form = probe_fresh_label_site()
